@@ -28,4 +28,14 @@ CHECKS = {
   'note': TB,
   'technique': 'Coq proof over translated tables/mask expressions + extracted-model correspondence + differential search',
  },
+ 'C18': {
+  'text': ("Proof (Coq): for EVERY byte string the model of compact.go returns exactly the raw token stream of the RFC 8259 parse of the input "
+           "(Spec/Json.v, the bytes encoding/json.Compact appends) or an error when the input is not a JSON text; it never reads outside src++[NUL] and "
+           "never exhausts its fuel; acceptance is equivalent to rfc_json; the number recogniser equals the RFC number grammar. The Coq specification "
+           "itself (parse + Compact/Indent renderers) is compared with the real encoding/json on every run. Indent, pre-filled destinations, "
+           "idempotence and HTMLEscape are checked by correspondence/differential runs (all strings <=4 over the 27-byte alphabet, generated texts "
+           "with every white-space placement and single-byte edits, 7 prefix/indent pairs). Partial: no theorem yet for Indent rendering and idempotence."),
+  'note': TB,
+  'technique': 'Coq proof (model = RFC 8259 spec on all inputs) + extracted-model and extracted-spec correspondence + differential search',
+ },
 }
